@@ -551,8 +551,10 @@ pub fn explore_program(
                     _ => false,
                 };
                 let mut f = found.lock().unwrap();
-                if f.len() < 24 {
-                    for m in msgs {
+                for m in msgs {
+                    // capped per property tag
+                    let tag = super::tag_of(&m).unwrap_or_default();
+                    if f.iter().filter(|x| super::tag_of(&x.msg).unwrap_or_default() == tag).count() < 24 {
                         f.push(Found { program: p.clone(), schedule: schedule.clone(), msg: m, reproduced: same_trace && still });
                     }
                 }
